@@ -246,6 +246,23 @@ Example C04_ex_one_twentieth :
   decide scale_floor i 0 now = Renew /\ decide scale_floor i 0 (85 * day) = Wait /\
   decide scale_floor (ex true (1, 100) (ex_sel 95)) 0 now = Wait.
 Proof. cbv zeta. ex_solve. Qed.
+(* ARI never postpones: day 61 is due with ARI disabled, and stays due with a selected day 80 *)
+Example C04_ex_never_postpones :
+  decide scale_floor (ex true (0, 1) no_ari) 0 (61 * day) = Renew /\
+  decide scale_floor (ex false (0, 1) (ex_sel 80)) 0 (61 * day) = Renew.
+Proof. ex_solve. Qed.
+(* improvised times for the window [day 40, day 42]: first and last admissible draw *)
+Example C04_ex_improvised :
+  let i := ex false (0, 1) (ex_win 40 42) in
+  improv_n (ari i) = Some 172799 /\
+  select (ari i) 0 = Sel (40 * day + second) /\ select (ari i) 172798 = Sel (42 * day - second).
+Proof. cbv zeta. ex_solve. Qed.
+(* the exact float64 model: 90 d * 1/3 = 30 d exactly; a lifetime above 2^53 ns that is not a
+   double rounds up, so the window may exceed the lifetime by a few ns (ratio 1) *)
+Example C04_ex_float64 :
+  scale_f64 (90 * day) (1, 3) = 30 * day /\ scale_f64 (90 * day) (1, 20) = 388800 * second /\
+  scale_f64 359999999906 (1, 10) = 35999999990 /\ scale_f64 (2 ^ 53 + 3) (1, 1) = 2 ^ 53 + 4.
+Proof. ex_solve. Qed.
 (* without a selected time the verdict can go back to wait when the draw is repeated: why the
    property's last clause is restricted *)
 Example C04_monotone_needs_fixed_draw :
